@@ -223,6 +223,31 @@ def chk_arrays(c, note):
             if got[0] != "ok" or np.shape(got[1]) != np.shape(ref_) or not np.all(np.isfinite(got[1])) or \
                     np.any(np.abs(np.asarray(got[1], dtype=float) - ref_) > tol * np.abs(ref_) + 1e-12):
                 return "%s on %s arrays %r, %r -> %r, on float64 arrays -> %r" % (f, dt.__name__, Vi.tolist(), Hi.tolist(), got, ref_.tolist())
+    # altitudes held in unsigned integer arrays (metres above sea level as read from a file): the same values as in a signed array
+    Hu = np.round(H).astype(int).clip(0, 20000)
+    for f in ("pressure", "density", "temperature", "vsound"):
+        ref_ = np.asarray(getattr(aero, f)(Hu.astype(float)), dtype=float)
+        for dt in (np.uint16, np.uint32, np.uint64, np.int64):
+            got = call(getattr(aero, f), Hu.astype(dt))
+            if got[0] != "ok" or np.shape(got[1]) != np.shape(ref_) or np.any(np.abs(np.asarray(got[1], dtype=float) - ref_) > 1e-12 * np.abs(ref_)):
+                return "%s on a %s altitude array %r -> %r, on float64 -> %r" % (f, dt.__name__, Hu.tolist(), got, ref_.tolist())
+    for f in ("tas2cas", "tas2eas", "eas2tas", "tas2mach"):
+        ref_ = np.asarray(getattr(aero, f)(V, Hu.astype(float)), dtype=float)
+        for dt in (np.uint16, np.uint32):
+            got = call(getattr(aero, f), V, Hu.astype(dt))
+            if got[0] != "ok" or np.shape(got[1]) != np.shape(ref_) or np.any(np.abs(np.asarray(got[1], dtype=float) - ref_) > 1e-12 * np.abs(ref_) + 1e-12):
+                return "%s(%r, %s altitude array %r) -> %r, with float64 altitudes -> %r" % (f, V.tolist(), dt.__name__, Hu.tolist(), got, ref_.tolist())
+    # single-precision speeds (a float32 column of a data file) against a plain float altitude and against a float64 altitude array: the atmosphere is
+    # double precision, so the result is that of the same speeds held in float64 (conversions that start from a CAS work in the precision of their
+    # input on the pinned tree and are left out, as are float32 altitudes)
+    V32 = V.astype(np.float32)
+    V64 = V32.astype(float)
+    for f in ("tas2cas", "tas2eas", "eas2tas", "tas2mach"):
+        for what, hh in (("a float altitude", float(c["h"][0])), ("a float64 altitude array", H)):
+            ref_ = np.asarray(getattr(aero, f)(V64, hh), dtype=float)
+            got = call(getattr(aero, f), V32, hh)
+            if got[0] != "ok" or np.shape(got[1]) != np.shape(ref_) or np.any(np.abs(np.asarray(got[1], dtype=float) - ref_) > 1e-6 * np.abs(ref_) + 1e-9):
+                return "%s(float32 speeds %r, %s %r) -> %r, the same speeds in float64 -> %r" % (f, V32.tolist(), what, hh if isinstance(hh, float) else hh.tolist(), got, ref_.tolist())
     buf = np.array(c["h"], dtype=float)
     for f in ("pressure", "density", "temperature", "vsound"):
         getattr(aero, f)(buf)
